@@ -54,12 +54,18 @@ VALS_Q4 = [1.0, 2.0, -3.0, NAN]
 LAT = [(x, y) for x in range(5) for y in range(5)]
 LAT_Q = [(x, y) for x in (0, 1, 4) for y in (0, 1, 4)]
 DIAG = [[0, 0, 5.0], [4, 4, NAN]]
+# the fine-grid family: a 5 x 4 extent cut in columns of 1/64 (320 columns at margin 0, more with a margin) and rows of 1
+DIAG_WIDE = [[0, 0, 5.0], [5, 4, NAN]]
+RES_FINE = (0.015625, 1)
+FINE_X = [0, 0.015625, 1, 2.5078125, 4.984375, 5]
+FINE_Y = [0, 1, 4]
 P2 = [(1, 1), (3, 2)]
 P3 = [(1, 1)]
 SPLITS3 = [(3,), (2, 1), (1, 1, 1)]
 SPLITS4 = [(2, 2), (1, 3)]
 
 OBLIGATIONS = {
+    "grid_wider_than_256_cells": "a grid with more than 256 columns (5 x 4 extent, columns of 1/64) was summarised and probed with getCell",
     "second_feature_interleaved": "a second (unit) feature was requested between the maps of the first one and its count / sum per cell judged",
     "aggregates_in_reversed_order": "the same collection summarised with the aggregates requested in the reversed order (median first)",
     "cell_with_two_values": "a cell collects >= 2 non-NaN values",
@@ -94,6 +100,8 @@ def bounds(tier, variant):
     return {"lattice": "[0,4]^2 integer, offset/scale of variant %d" % variant, "resolutions": [list(r) for r in RES],
             "margins": MARGINS, "grids": len(RES) * len(MARGINS), "aggregates": [a for a, _ in AGGS],
             "values_two_fix_family": VALS_Q if q else VALS, "positions_two_fix_family": len(LAT_Q if q else LAT),
+            "fine_grid_family": {"resolution": list(RES_FINE), "extent": "5 x 4 (second fixed track end at (5, 4))", "x": FINE_X, "y": FINE_Y,
+                                 "getCell_points": "x = i/128 for i in 0..640, y in {0, 2.5, 4}"},
             "collections_per_grid": _fam_sizes(tier), "getCell_points_per_grid": 17 * 17 + 8}
 
 
@@ -304,6 +312,8 @@ def _oblige(G, fixes, cells, ntracks, margin, ctx):
 
 
 def _oblige_grid(G, margin, ctx):
+    if G["ncol"] > 256 or G["nrow"] > 256:
+        ctx.oblige("grid_wider_than_256_cells")
     if abs(G["rx"] - G["ry"]) > 1e-12:
         ctx.oblige("nonsquare_resolution")
     if margin == 0:
@@ -461,11 +471,13 @@ def check_summ(variant, tracks, res, margin, ctx, order="listed"):
     return nontrivial
 
 
-def check_cell(variant, res, margin, p, ctx):
+def check_cell(variant, res, margin, p, ctx, diag="std"):
     """Raster.getCell alone, on a grid built over the constant extent."""
     case = {"op": "cell", "variant": variant, "res": list(res), "margin": margin, "p": list(p)}
+    if diag != "std":
+        case["diag"] = diag
     resolution = _res(variant, res)
-    col = _collection(variant, [DIAG])
+    col = _collection(variant, [DIAG_WIDE if diag == "wide" else DIAG])
     st, r = guard(Raster, col.bbox(), resolution, margin)
     if st != "ok":
         ctx.violation("Raster/%s" % ("raises" if st == "exc" else "does-not-return"), case, r)
@@ -493,7 +505,7 @@ def replay(case, ctx):
         check_summ(case["variant"], [[tuple(f) for f in t] for t in case["tracks"]], tuple(case["res"]), case["margin"], ctx,
                    case.get("order", "listed"))
     elif case["op"] == "cell":
-        check_cell(case["variant"], tuple(case["res"]), case["margin"], tuple(case["p"]), ctx)
+        check_cell(case["variant"], tuple(case["res"]), case["margin"], tuple(case["p"]), ctx, case.get("diag", "std"))
 
 
 def probe():
@@ -553,6 +565,9 @@ def plan(tier, variant):
     shards = []
     for ri in range(len(RES)):
         shards.append({"kind": "cells", "ri": ri, "variant": variant})
+    for mi in range(len(MARGINS)):
+        for xi in [None] + list(range(len(FINE_X))):
+            shards.append({"kind": "fine", "mi": mi, "xi": xi, "tier": tier, "variant": variant})
     chunk = {"quick": 1500, "thorough": 4000}[tier]
     for fam in ("F1a", "F3", "F2", "F1b"):
         n = len(_family(fam, tier, variant))
@@ -573,6 +588,31 @@ def run_shard(shard, ctx):
                 nt = check_cell(v, res, margin, p, ctx)
                 ctx.case(bool(nt))
         ctx.sample({"getCell_on_grid": {"res": list(res), "margins": MARGINS}, "points": "quarter lattice 17x17 + 8 extent border points"})
+        return
+    if shard["kind"] == "fine":
+        margin = MARGINS[shard["mi"]]
+        if shard["xi"] is None:
+            for i in range(0, 5 * 128 + 1):                      # getCell on every half column, three heights
+                for y in (0, 2.5, 4):
+                    ctx.case(bool(check_cell(v, RES_FINE, margin, (i / 128.0, y), ctx, "wide")))
+            for p in _cell_points()[-8:]:
+                ctx.case(bool(check_cell(v, RES_FINE, margin, p, ctx, "wide")))
+            ctx.sample({"fine_grid_getCell": {"res": list(RES_FINE), "margin": margin, "extent": "5 x 4"}})
+            return
+        q = shard["tier"] == "quick"
+        vals = alpha.order(v, VALS_Q)
+        ys = [0, 4] if q else FINE_Y
+        letters = [(x, y, val) for x in FINE_X for y in ys for val in vals]
+        wide = [tuple(f) for f in DIAG_WIDE]
+        for a in letters:                                        # one track of one fix, then of two fixes
+            if a[0] != FINE_X[shard["xi"]]:
+                continue
+            ctx.case(bool(check_summ(v, [wide, [a]], RES_FINE, margin, ctx)))
+            for b in letters:
+                if q and not (a[0] == b[0] and a[1] == b[1]):     # quick: the two fixes at one position (one cell)
+                    continue
+                ctx.case(bool(check_summ(v, [wide, [a, b]], RES_FINE, margin, ctx, "reversed" if a[2] != a[2] else "listed")))
+        ctx.sample({"fine_grid": {"res": list(RES_FINE), "margin": margin, "extent": "5 x 4", "x": FINE_X[shard["xi"]], "y": ys}})
         return
     res, margin = RES[shard["ri"]], MARGINS[shard["mi"]]
     fam = _family(shard["fam"], shard["tier"], v)
